@@ -25,7 +25,7 @@ RULE = ("part included_at: component repo = one release branch, 1-10 commits in 
         "to a component build without matching commit; distinct by case hash.")
 ASSUMPTIONS = [
     "more than 400k (report) / 20k (dependency analysis) Python calls inside ak/ghist.py for these tiny inputs is a divergence (normal runs need a few thousand)",
-    "parent histories are tree-shaped (no merge commits in the PARENT) and the component has a single branch; the set of report-related component builds is read from the component's own report (its placement rules are C06's property)",
+    "the component has a single branch; the set of report-related component builds is read from the component's own report (its placement rules are C06's property); with merge commits in the parent (part included_at_parent_merges) 'the first build' is read as: every build of the branch that ships the component build while none of its ancestor builds does",
     "pins always name an existing component build tag; pinned versions never decrease along a path",
     "at most one build tag per commit; commit times: component first, parent later (inside the 1-day / 30-day windows)",
     "included_at entries are compared as multisets of (parent repo, parent branch, shown build number)",
@@ -231,6 +231,8 @@ def evaluate(case):
         classes.add("pin_to_build_without_matching_commit")
     if any(len(c.get("parents", [])) >= 2 for c in cc):
         classes.add("component_history_with_merges")
+    if any(len(c["parents"]) > 1 for c in case["parent"]["commits"]):
+        classes.add("parent_history_with_merges")
     heads = case["parent"]["branches"]
     if len(heads) >= 2:
         classes.add("several_parent_branches")
@@ -303,13 +305,38 @@ def eval_graph(case):
 # ---------------------------------------------------------------------------
 
 @st.composite
-def st_case(draw):
+def st_case(draw, merges=False):
     search = draw(st.sampled_from(["BUG-7", "fix"]))
     nc = draw(st.integers(1, 8))
-    linear = draw(st.booleans())
+    linear = draw(st.booleans()) and not (merges and draw(st.booleans()))
     ccommits = []
     tips = []
+    forced = None
+    if merges and draw(st.booleans()):
+        # component shape: chain, two parallel lines of builds, merge, optional tail
+        a = draw(st.integers(1, 2))
+        l1, l2 = draw(st.integers(1, 2)), draw(st.integers(1, 2))
+        forced = [[]] + [[i - 1] for i in range(1, a)]
+        t1 = a - 1
+        for _ in range(l1):
+            forced.append([t1])
+            t1 = len(forced) - 1
+        t2 = a - 1
+        for _ in range(l2):
+            forced.append([t2])
+            t2 = len(forced) - 1
+        forced.append([t2, t1] if draw(st.booleans()) else [t1, t2])
+        for _ in range(draw(st.integers(0, 1))):
+            forced.append([len(forced) - 1])
+        nc = len(forced)
+        linear = False
     for i in range(nc):
+        if forced is not None:
+            parents = sorted(forced[i], reverse=True) if len(forced[i]) > 1 else list(forced[i])
+            tips = [i]
+            ccommits.append({"parents": parents, "match": draw(st.integers(0, 3)) > 0,
+                             "tag": 0 if draw(st.integers(0, 5)) > 0 else None})
+            continue
         if i == 0:
             parents = []
         elif linear or draw(st.integers(0, 2)) > 0 or len(tips) < 2:
@@ -344,27 +371,56 @@ def st_case(draw):
     names.sort(key=fakegit.branch_sort_key)
     pcommits = []
     branches = {}
-    tagnums = iter(sorted(draw(st.lists(st.integers(1, 900), min_size=30, max_size=30, unique=True))))
+    tagnums = iter(sorted(draw(st.lists(st.integers(1, 900), min_size=80, max_size=80, unique=True))))
 
-    def add_commit(parent, minpin_i):
+    def add_commit(parent, minpin_i, other=None, force_pin=None, tag_p=3):
         pi = draw(st.integers(minpin_i, len(pins) - 1))
         if draw(st.integers(0, 2)) == 0:
             pi = minpin_i
+        if merges and draw(st.integers(0, 3)) > 0:
+            pi = min(len(pins) - 1, minpin_i + draw(st.sampled_from([0, 1, 1, 1, 2])))     # small steps through the builds
+        if force_pin is not None:
+            pi = force_pin
         tag = None
-        if draw(st.integers(0, 2)) == 0:
+        if draw(st.integers(0, tag_p - 1)) == 0 or (tag_p == 1):
             tag = next(tagnums)
-        pcommits.append({"parents": [] if parent is None else [parent], "match": draw(st.integers(0, 2)) == 0,
+        plist = [] if parent is None else [parent]
+        if other is not None:
+            plist = [parent, other] if draw(st.booleans()) else [other, parent]
+        pcommits.append({"parents": plist, "match": draw(st.integers(0, 2)) == 0,
                          "pin": pins[pi], "pin_i": pi, "tag": tag, "tag_branch": draw(st.sampled_from(names))})
         return len(pcommits) - 1
+    def diamond(cur):
+        # two parallel lines of (mostly tagged) parent commits from `cur`, merged again; the second line may pin exactly
+        # what the first line ends with
+        a = cur
+        for _ in range(draw(st.integers(1, 2))):
+            a = add_commit(a, pcommits[a]["pin_i"], tag_p=draw(st.sampled_from([1, 1, 2])))
+        same = draw(st.booleans()) and pcommits[a]["pin_i"] >= pcommits[cur]["pin_i"]
+        b = add_commit(cur, pcommits[cur]["pin_i"], force_pin=pcommits[a]["pin_i"] if same else None,
+                       tag_p=draw(st.sampled_from([1, 1, 2])))
+        hi = max(pcommits[a]["pin_i"], pcommits[b]["pin_i"])
+        return add_commit(a, hi, other=b, tag_p=draw(st.sampled_from([1, 1, 2])))
+
+    def grow(cur):
+        if merges and draw(st.integers(0, 3)) == 0:
+            return diamond(cur)
+        if merges and len(pcommits) >= 2 and draw(st.integers(0, 2)) == 0:
+            # merge commit in the parent repository: a second parent from anywhere in the history built so far;
+            # its pin is not lower than the pins of both parents
+            other = draw(st.integers(0, len(pcommits) - 1))
+            if other != cur:
+                return add_commit(cur, max(pcommits[cur]["pin_i"], pcommits[other]["pin_i"]), other=other)
+        return add_commit(cur, pcommits[cur]["pin_i"])
     for bi, b in enumerate(names):
         if bi == 0:
             cur = add_commit(None, 0)
-            for _ in range(draw(st.integers(0, 4))):
-                cur = add_commit(cur, pcommits[cur]["pin_i"])
+            for _ in range(draw(st.integers(0, 4 if not merges else 6))):
+                cur = grow(cur)
         else:
             cur = draw(st.integers(0, len(pcommits) - 1))      # fork point inside an earlier branch
             for _ in range(draw(st.integers(0, 4))):
-                cur = add_commit(cur, pcommits[cur]["pin_i"])
+                cur = grow(cur)
         branches[b] = cur
     for c in pcommits:
         c.pop("pin_i")
@@ -405,9 +461,16 @@ def st_graph(draw):
     return {"graph": graph, "supplied": supplied}
 
 
+def st_case_merges():
+    return st_case(merges=True)
+
+
 def parts(tier):
     k = 1 if tier == "quick" else 40
     return [Part("included_at", evaluate, strategy=st_case, examples=6000 * k),
+            Part("included_at_parent_merges", evaluate, strategy=st_case_merges, examples=4000 * k,
+                 note="merge commits in the parent repository; 'first build' = every build that ships the component build while "
+                      "none of its ancestor builds does"),
             Part("dependency_graphs", evaluate, strategy=st_graph, examples=3000 * k)]
 
 
